@@ -63,7 +63,7 @@ Definition table (k : kind) : list (eff * region) :=
   | KC => [(EBind EXPR, ROuter); (EUse EXPR, ROuter); (EUse EXPR, ROuter); (ECi, ROuter); (ERi, ROuter); (ENs, ROuter)]
   | KD => [(EBind EXPR, ROuter); (EUse EXPR, ROuter); (EUse EXPR, ROuter); (EUse EXPR, ROuter);
            (ECi, ROuter); (ERi, ROuter); (ENs, ROuter)]
-  | KE => [(ESym, ROuter); (EStr, ROuter); (EUse EXPR, ROuter); (ESub, ROuter); (ESub, ROuter)]
+  | KE => [(ESym, ROuter); (EStr, ROuter); (ESub, ROuter); (ESub, ROuter)]
   | KX => [(EXi, ROuter); (EXv, ROuter)]
   | KR => [(ERaise, ROuter)]
   end.
@@ -458,8 +458,8 @@ Definition finish (cancel : list sub -> list sub) (orig : list val) (lb : lib) :
   let U := dedupe (lb_fun lb) in
   mkLibrary orig U (map (fun f => index_of f U) (lb_fun lb)) (map cancel (lb_chain lb)).
 
-Definition generate (nparam : val -> nat) (cancel : list sub -> list sub) (n : nat) (orig : list val) (r : genrun)
-  : option library :=
+(* everything before check_results; None = the run does not complete *)
+Definition pre_check (cancel : list sub -> list sub) (orig : list val) (r : genrun) : option library :=
   match run_rounds (gr_rounds1 r) (mkLib orig (map (fun _ => []) orig)) with
   | None => None
   | Some lb1 =>
@@ -471,12 +471,18 @@ Definition generate (nparam : val -> nat) (cancel : list sub -> list sub) (n : n
       | Some lb2 =>
         match run_expand (gr_expand2 r) with
         | None => None
-        | Some _ =>
-          let y := finish cancel orig lb2 in
-          Some (if 2 <? n then check_results nparam y (gr_order r) (gr_checks r) else y)
+        | Some _ => Some (finish cancel orig lb2)
         end
       end
     end
+  end.
+
+(* `if compl > 2: simplifier.check_results(dirname, compl)` *)
+Definition generate (nparam : val -> nat) (cancel : list sub -> list sub) (n : nat) (orig : list val) (r : genrun)
+  : option library :=
+  match pre_check cancel orig r with
+  | None => None
+  | Some y => Some (if 2 <? n then check_results nparam y (gr_order r) (gr_checks r) else y)
   end.
 
 (* ------------------------------------------------------------------ well-formedness of traces (hypotheses of the theorems) *)
@@ -512,3 +518,27 @@ Fixpoint chk_for (nparam : val -> nat) (y : library) (order : list nat) (cs : li
       else chk_for nparam y order' cs i
   | _, _ => None
   end.
+
+(* a call of a round is well formed: one sympy object per function of the group, well-formed stages *)
+Definition call_ok (c : call) : bool :=
+  (length (c_group c) =? length (c_syms c)) && forallb (stage_ok (length (c_group c))) (c_script c).
+Definition expand_ok (bs : list blk) : bool := forallb (fun b => conforms KX (fst b) && aligned (fst b)) bs.
+Definition run_ok (r : genrun) : bool :=
+  forallb (forallb call_ok) (gr_rounds1 r) && expand_ok (gr_expand1 r) &&
+  forallb (forallb call_ok) (gr_rounds2 r) && expand_ok (gr_expand2 r).
+
+(* ------------------------------------------------------------------ a concrete execution used as a witness *)
+
+(* one function with two parameters (so block KA runs once), strings/objects 1/2.  Block KA substitutes, appends
+   'nan' and is cut before it prints the new string; block KB then completes a substitution and prints. *)
+Definition stale_witness_script : list stage :=
+  call_script
+    [[([[(EBind EXPR, 0)]; [(EBind F1, 0)]; [(ESym, 3)]; [(ESub, NAN)]; [(EStr, 4)]], Some 4)]]
+    [([[(ESave, 0)]; [(ESym, 5)]; [(ESub, 7)]; [(EStr, 6)]], None)]
+    false [] [([], None)] [([], None)] [None].
+(* the same call with the cut block skipped altogether *)
+Definition stale_witness_skipped : list stage :=
+  call_script
+    [[([], None)]]
+    [([[(ESave, 0)]; [(ESym, 5)]; [(ESub, 7)]; [(EStr, 6)]], None)]
+    false [] [([], None)] [([], None)] [None].
